@@ -5,7 +5,6 @@ import (
 
 	"github.com/berquerant/crd/chord"
 	"github.com/spf13/cobra"
-	"gopkg.in/yaml.v3"
 )
 
 func init() {
@@ -30,7 +29,7 @@ var genCmdAttr = &cobra.Command{
 		defer output.Close()
 		max, _ := cmd.Flags().GetUint("maxDegree")
 		attrs := chord.GenerateAttributes(max)
-		b, err := yaml.Marshal(attrs)
+		b, err := marshalYaml(attrs)
 		if err != nil {
 			return err
 		}
